@@ -424,11 +424,12 @@ def paren_cases(names, nops, roots=None):
     for lab, t in E.trees(names, nops, roots):
         orig = E.program(_top(t))
         m = E.minimal(t)
+        arg = (lambda x: "(" + x + ")") if E.level(t) < 2 else (lambda x: x)   # a comma at the top of a call argument
         for path, node in E.subexprs(t):
             v = _wrap_at(t, path)
             if v == m:
                 continue
-            out.append((v, {"o": orig, "v": E.program(v), "lab": lab, "w": _node_name(node),
+            out.append((v, {"o": orig, "v": E.program(arg(v)), "lab": lab, "w": _node_name(node),
                             "path": list(path)}))
         out.append((_wrap_all(t), {"o": orig, "v": E.program(_wrap_all(t)), "lab": lab, "w": "every sub-expression", "path": []}))
     return out
@@ -461,8 +462,9 @@ def number_cases():
             add("exponent " + e[:-1].replace("0", "") + "N", d + e)
         add("trailing dot + exponent `5.e0`", d + ".e0")
         add("fraction + exponent", d + ".0e0")
-        add("scaled exponent e-1", d + "0e-1")
-        add("scaled exponent E-2", d + "00E-2")
+        if v:                   # 00e-1 would be a legacy octal-like literal (strict-mode error)
+            add("scaled exponent e-1", d + "0e-1")
+            add("scaled exponent E-2", d + "00E-2")
         add("scaled exponent e1", (d[:-1] or "0") + "." + d[-1] + "e1")
         add("scaled exponent e+1", (d[:-1] or "0") + "." + d[-1] + "e+1")
         add("leading dot + exponent `.5e1`", "." + d + "e%d" % len(d))
@@ -492,7 +494,8 @@ def number_cases():
             add("leading dot `.5`", "." + fp)
             add("leading dot + exponent", "." + fp + "e0")
             add("leading dot + exponent", "." + fp + "E+0")
-            add("member on leading-dot literal", "." + fp + ".toString()")
+            if f != "0.0000001":
+                add("member on leading-dot literal", "." + fp + ".toString()")
         add("fraction trailing zero", f + "0")
         add("fraction + exponent e0", f + "e0")
         add("fraction + exponent E-0", f + "E-0")
@@ -500,7 +503,8 @@ def number_cases():
         add("integer mantissa, negative exponent", digits + "e-%d" % len(fp))
         add("integer mantissa, negative exponent E", digits + "E-%d" % len(fp))
         add("scaled fraction e+1", ("0." + "0" * 0 + ("0" + ip + fp if ip != "0" else "0" + fp)) + "e+1" if ip == "0" else f + "e+0")
-        add("member on fraction literal", f + ".toString()")
+        if f != "0.0000001":    # Number-to-string of 1e-7 belongs to another property
+            add("member on fraction literal", f + ".toString()")
     return out
 
 
@@ -549,16 +553,21 @@ def string_cases():
     return out
 
 
-ESC_FORMS = ["a", "\\x41", "\\u0042", "\\u{43}", "\\n", "\\\\", "\\0", "\\'", '\\"', "\\\n", "\\q", "\u4e2d", "\\u{4E2D}"]
+ESC_FORMS = [("a", "raw"), ("\\x41", "\\xHH"), ("\\u0042", "\\uHHHH"), ("\\u{43}", "\\u{H}"), ("\\n", "single-character escape"),
+             ("\\\\", "single-character escape"), ("\\0", "\\0"), ("\\'", "escaped quote"), ('\\"', "escaped quote"),
+             ("\\\n", "line continuation"), ("\\q", "identity escape"), ("\u4e2d", "raw"), ("\\u{4E2D}", "\\u{H}")]
 
 
 def string_pair_cases():
     out = []
     for q in ('"', "'"):
-        for x in ESC_FORMS:
-            for y in ESC_FORMS:
+        for x, xk in ESC_FORMS:
+            for y, yk in ESC_FORMS:
                 cid = "__out(%s%s%s%s)" % (q, x, y, q)
-                out.append((cid, {"src": cid + ";", "form": "adjacent escapes %r then %r" % (x[:3], y[:3]), "nt": True}))
+                kinds = [xk, yk]
+                form = "line continuation next to another character" if "line continuation" in kinds else (
+                    "adjacent %s then %s" % (xk, yk))
+                out.append((cid, {"src": cid + ";", "form": form, "nt": True}))
     return out
 
 
@@ -581,7 +590,8 @@ def reject_corpus(compositions=True):
     """[(key, prefix, body, suffix)]: only the body is mutated."""
     c = [("frag:" + n, "", s, "") for n, s in progs.corpus() if compositions or "+" not in n]
     for lab, t in E.trees(E.OPNAMES, 2):
-        c.append(("expr:" + lab, E.PRELUDE, "__out(" + _top(t) + ")", E.EPILOGUE))
+        pre, epi = E.prelude_epilogue(_top(t))
+        c.append(("expr:" + lab, pre, "__out(" + _top(t) + ")", epi))
     c.append(("expr:prelude", "", E.PRELUDE + "__out(a)" + E.EPILOGUE, ""))
     return c
 
@@ -652,34 +662,43 @@ def reject_target_cases():
     return out
 
 
-BAD_LITERALS = ["0x", "0X", "0b", "0B", "0o", "0O", "0b2", "0b12", "0o8", "0o78", "0xg", "0x1g", "1e", "1e+", "1E-", "1.e", "1.5e+",
-                "3in o", "3instanceof o", "1.5.5", "0b1.1", "0x1.8", "1a", "0b1e1", "1..5",
-                '"\\x4"', '"\\x"', '"\\xg1"', '"\\u12"', '"\\u"', '"\\u{}"', '"\\u{110000}"', '"\\u{12"', '"\\u{g}"', '"\\u123g"',
-                "'\\x4'", "'\\u{'", '"a\nb"', "'a\nb'", '"abc', "'abc", '"abc\\"', "'", '"',
-                "/a", "/a/gg", "/[/", "/a\n/", "/(/", "/a/x",
-                "/* open", "/* a */ 1 /* b", "/*", "/*/", "1 /* a *", "@", "#", "a @ b", "a # b", "\\", "a \\ b",
-                "1 2", "a b", "1 +", "* 1", "a +* b", "a ? b", "a ? b :", "a ? : b", ". a", "a .", "a . 1", "a..b", "(", ")", "[", "]", "{", "}",
-                "()", "a(", "a[", "a[]", "f(,)", "f(a,,b)", "[a b]", "{a: 1,, b: 2}.a", "({a: 1,, b: 2})", "({a 1})", "({a:})", "({: 1})",
-                "({get a})", "({get a(x) {}})", "({set a() {}})", "var", "var 1", "var a =", "var a b", "var a,", "var if", "var this",
-                "if", "if (", "if ()", "if (a", "if a", "if (a) else", "else", "while", "while ()", "while (a", "do", "do a", "do a; while",
-                "do ; while (", "for", "for (", "for ()", "for (;)", "for (;;", "for (a b;;);", "for (var a of);", "for (var a in);",
-                "for (var of b);", "for (var 1 in b);", "break", "continue", "break 1", "while(1) break 1;", "x: while(1) break y;",
-                "x: while(1) continue y;", "return", "return 1", "function", "function f", "function f(", "function f()", "function f() {",
-                "function (){}", "function f(1){}", "function f(a,){", "function f(a b){}", "function f(a,,b){}", "(function (){)",
-                "throw", "throw;", "throw\n1", "try", "try {}", "try {} catch", "try {} catch (", "try {} catch (e)", "try {} catch () {}",
-                "try {} catch (1) {}", "try {} finally", "try 1; catch (e) {}", "catch (e) {}", "finally {}", "switch", "switch (",
-                "switch (a)", "switch (a) {", "switch (a) { 1 }", "switch (a) { case }", "switch (a) { case 1 }", "switch (a) { default }",
-                "switch (a) { default: default: }", "case 1:", "default:", "new", "new ()", "new.x", "typeof", "delete", "void",
-                "a =", "= a", "a = = b", "a +=", "a ++ ++", "++", "a ** ", "-a ** b", "+a ** b", "!a ** b", "~a ** b", "typeof a ** b",
-                "void a ** b", "delete a.b ** c", "a => ", "=> a", "(a, 1) => a", "(a b) => a", "a => {", "(a) => }", "() =>", "(a)\n=> a",
-                "a\n=> a", "1 => 1", "(1) => 1", "(a.b) => 1", "x = a => b ? c", "a, => b", "(a,) =>", "(,a) => a",
-                "a: a: 1", "if (a) function f(){}", "while (a) function f(){}", "1: a", "a.1", "a.'b'", "a.[b]", "a[b", "a(b",
-                "a(b c)", "new a(b", "a`", "`a", "a; }", "{ a; ", "a; )", "a; ]", "[a; b]", "(a; b)", "({a; b})", "a ? b; c : d",
-                "var a = 1 var b = 2", "a = 1 b = 2", "a() b()", "if (a) b else c d e"]
+MALFORMED = {
+    "number literal": ["0x", "0X", "0b", "0B", "0o", "0O", "0b2", "0b12", "0o8", "0o78", "0xg", "0x1g", "1e", "1e+", "1E-", "1.e", "1.5e+",
+                       "3in o", "3instanceof o", "1.5.5", "0b1.1", "0x1.8", "1a", "0b1e1", "1..5"],
+    "string escape": ['"\\x4"', '"\\x"', '"\\xg1"', '"\\u12"', '"\\u"', '"\\u{}"', '"\\u{110000}"', '"\\u{12"', '"\\u{g}"', '"\\u123g"',
+                      "'\\x4'", "'\\u{'"],
+    "unterminated string": ['"a\nb"', "'a\nb'", '"abc', "'abc", '"abc\\"', "'", '"'],
+    "regex literal": ["/a", "/a/gg", "/[/", "/a\n/", "/(/", "/a/x"],
+    "unterminated comment": ["/* open", "/* a */ 1 /* b", "/*", "/*/", "1 /* a *"],
+    "stray character": ["@", "#", "a @ b", "a # b", "\\", "a \\ b", "a`", "`a"],
+    "incomplete expression": ["1 +", "* 1", "a +* b", "a ? b", "a ? b :", "a ? : b", ". a", "a .", "a . 1", "a..b", "a.'b'", "a.[b]",
+                              "new", "new ()", "new.x", "typeof", "delete", "void", "a ** "],
+    "unbalanced bracket": ["(", ")", "[", "]", "{", "}", "()", "a(", "a[", "a[]", "a[b", "a(b", "new a(b", "a; }", "{ a; ", "a; )", "a; ]",
+                           "[a; b]", "(a; b)", "({a; b})", "a ? b; c : d"],
+    "argument / element list": ["f(,)", "f(a,,b)", "[a b]", "a(b c)"],
+    "object literal": ["{a: 1,, b: 2}.a", "({a: 1,, b: 2})", "({a 1})", "({a:})", "({: 1})", "({get a})", "({get a(x) {}})", "({set a() {}})"],
+    "var declaration": ["var", "var 1", "var a =", "var a,", "var if", "var this"],
+    "if / loop header": ["if", "if (", "if ()", "if (a", "if a", "if (a) else", "else", "while", "while ()", "while (a", "do", "do a", "do a; while",
+                         "do ; while (", "for", "for (", "for ()", "for (;)", "for (;;", "for (a b;;);", "for (var a of);", "for (var a in);",
+                         "for (var of b);", "for (var 1 in b);"],
+    "break / continue / return placement": ["break", "continue", "x: while(1) break y;",
+                                            "x: while(1) continue y;", "return", "return 1"],
+    "function syntax": ["function", "function f", "function f(", "function f()", "function f() {", "function (){}", "function f(1){}",
+                        "function f(a,){", "function f(a b){}", "function f(a,,b){}", "(function (){)"],
+    "throw / try": ["throw", "throw;", "throw\n1", "try", "try {}", "try {} catch", "try {} catch (", "try {} catch (e)", "try {} catch () {}",
+                    "try {} catch (1) {}", "try {} finally", "try 1; catch (e) {}", "catch (e) {}", "finally {}"],
+    "switch": ["switch", "switch (", "switch (a)", "switch (a) {", "switch (a) { 1 }", "switch (a) { case }", "switch (a) { case 1 }",
+               "switch (a) { default }", "switch (a) { default: default: }", "case 1:", "default:"],
+    "assignment / update form": ["a =", "= a", "a = = b", "a +=", "a ++ ++", "++"],
+    "unary operator as base of **": ["-a ** b", "+a ** b", "!a ** b", "~a ** b", "typeof a ** b", "void a ** b", "delete a.b ** c"],
+    "arrow function": ["a => ", "=> a", "(a, 1) => a", "(a b) => a", "a => {", "(a) => }", "() =>", "(a)\n=> a", "a\n=> a", "1 => 1", "(1) => 1",
+                       "(a.b) => 1", "x = a => b ? c", "a, => b", "(a,) =>", "(,a) => a"],
+    "label / declaration position": ["a: a: 1", "1: a"],
+}
 
 
 def reject_literal_cases():
-    return [(s, {"src": s, "tl": 20, "mut": "malformed source", "key": "bad:" + s}) for s in BAD_LITERALS]
+    return [(s, {"src": s, "tl": 20, "mut": "malformed " + cat, "key": "bad:" + s}) for cat, xs in MALFORMED.items() for s in xs]
 
 
 # =============================================================================================
@@ -732,7 +751,7 @@ def core_spaces():
                     rule="each identifier assignment/update target replaced by a non-reference expression; V8: SyntaxError",
                     bound="targets x replacements", batch=400))
     sp.append(Space("c13_reject_malformed", RUN, reject_literal_cases, oracle="table",
-                    rule="%d hand-listed malformed literals / statements; V8: SyntaxError" % len(BAD_LITERALS), bound="list", batch=100))
+                    rule="%d hand-listed malformed literals / statements; V8: SyntaxError" % sum(len(x) for x in MALFORMED.values()), bound="list", batch=100))
     return sp
 
 
@@ -812,6 +831,60 @@ def _lab_classes(lab):
     return _lab_tok.sub(lambda m: OPCLASS.get(m.group(), m.group()), lab)
 
 
+def _lab_edges(lab):
+    """[(parent operator, slot index, child operator)] of a shape label such as `+(_ *(_ _))`."""
+    edges = []
+    pos = [0]
+
+    def node():
+        if lab[pos[0]] == "_":
+            pos[0] += 1
+            return None
+        j = pos[0]
+        depth_guard = 0
+        while not (lab[j] == "(" and (lab[j + 1] in "_" or lab[j + 1] != ")" and _starts_child(lab, j + 1))):
+            j += 1
+            depth_guard += 1
+            if depth_guard > 20:
+                raise ValueError(lab)
+        name = lab[pos[0]:j]
+        pos[0] = j + 1
+        k = 0
+        while True:
+            c = node()
+            if c is not None:
+                edges.append((name, k, c))
+            k += 1
+            if lab[pos[0]] == ")":
+                pos[0] += 1
+                break
+            pos[0] += 1     # the separating space
+        return name
+
+    try:
+        node()
+    except (IndexError, ValueError):
+        return []
+    return edges
+
+
+def _starts_child(lab, j):
+    """does a child list start at lab[j]? (operator names such as `new()` contain parentheses themselves)"""
+    return lab[j] == "_" or any(lab.startswith(n + "(", j) for n in E.OPNAMES if n != "new()") or lab.startswith("new()(", j)
+
+
+_POSTFIXY = ("mem", "idx", "call", "post++", "post--")
+
+
+def _culprit(lab):
+    """Known root-cause patterns, recognised on the operator nesting (first match wins)."""
+    edges = _lab_edges(lab)
+    for P, i, C in edges:
+        if P in ("new", "new()") and i == 0 and C in ("mem", "idx"):
+            return "new-member", "`new` whose callee is a member expression (`new o.K(a)`, `new r[i]`) is grouped as `(new o).K(a)`"
+    return None
+
+
 def _struct_kind(exp, obs):
     if obs == "Esyntax":
         return "rejected with a SyntaxError"
@@ -822,25 +895,73 @@ def _struct_kind(exp, obs):
     return "parsed with a different grouping"
 
 
+def _repl_class(mut):
+    r = mut.rpartition(" replaced by ")[2]
+    if r.startswith("("):
+        return "a parenthesised non-reference expression"
+    if r in ("a+b", "-x", "{}.k+1"):
+        return "a binary/unary expression"
+    if r == "x++":
+        return "an update expression"
+    return "a literal / this"
+
+
 def signature(sp, cid, payload, exp, obs):
     name = sp.name
     p = payload if isinstance(payload, dict) else {}
+    eg = cid.replace("\n", "\\n")[:60]
     if name.startswith("c13_prec"):
         kindname = name.rsplit("_", 1)[1]
-        shape = _lab_classes(p.get("lab", "?"))
+        lab = p.get("lab", "?")
+        shape = _lab_classes(lab)
+        cul = _culprit(lab)
         if kindname == "struct":
             k = _struct_kind(exp, obs)
-            return "struct|%s|%s" % (shape, k), "parse tree of operator nesting %s (e.g. `%s`): %s" % (shape, cid, k)
+            if cul:
+                return "struct|%s|%s" % (cul[0], k), "parse tree: %s: %s" % (cul[1], k)
+            return "struct|%s|%s" % (shape, k), "parse tree of operator nesting %s (e.g. `%s`): %s" % (shape, eg, k)
         k = mismatch_kind(exp, obs)
         if kindname == "meta":
+            if tail(exp) == "Esyntax" and tail(obs) != "Esyntax":
+                post = [P for P, i, C in _lab_edges(lab) if P in _POSTFIXY and i == 0]
+                w = OPCLASS.get(post[0], post[0]) if post else shape
+                return "meta|full-rejected|%s" % w, ("the fully parenthesised form is rejected with a SyntaxError although the minimal form "
+                                                     "runs: parenthesised operand of %s directly inside another parenthesis, e.g. `((a + b).p)`, "
+                                                     "`((o.p)++)`, `((f)(a))`" % w)
+            if cul:
+                return "meta|%s|%s" % (cul[0], k), "minimal vs fully parenthesised source differ: %s: %s" % (cul[1], k)
             return "meta|%s|%s" % (shape, k), ("operator nesting %s (e.g. `%s`): minimal-parenthesis source evaluates differently "
-                                                "from its fully parenthesised form: %s" % (shape, cid, k))
-        return "prec|%s|%s" % (shape, k), "operator nesting %s (e.g. `%s`) vs V8: %s" % (shape, cid, k)
+                                                "from its fully parenthesised form: %s" % (shape, eg, k))
+        if cul:
+            return "prec|%s|%s" % (cul[0], k), "value vs V8: %s: %s" % (cul[1], k)
+        edges = [(OPCLASS.get(P, P), i, OPCLASS.get(C, C)) for P, i, C in _lab_edges(lab)]
+        for P, i, C in edges:
+            if P in ("additive", "assignment") and C in ("new", "new()"):
+                return "prec|object-plus|%s" % k, ("value vs V8 (not a parsing defect): `+` / `+=` with an object operand such as "
+                                                   "`new K + a` throws instead of concatenating \"[object Object]\": %s" % k)
+        for P, i, C in edges:
+            if P == "udelete":
+                return "prec|delete-%s|%s" % (C, k), ("value vs V8 (not a parsing defect): `delete` applied to %s (e.g. `%s`): %s; the operand's "
+                                                      "side effect / the result differs" % (C, eg, k))
+        return "prec|%s|%s" % (shape, k), "operator nesting %s (e.g. `%s`) vs V8: %s" % (shape, eg, k)
     if name.startswith("c13_paren"):
         k = mismatch_kind(exp, obs)
         w = p.get("w", "?")
-        return "paren|%s|%s|%s" % (w, _lab_classes(p.get("lab", "?")), k), (
-            "redundant parentheses around %s in nesting %s (e.g. `%s`): %s" % (w, _lab_classes(p.get("lab", "?")), cid, k))
+        lab = p.get("lab", "?")
+        if tail(obs) == "Esyntax" and tail(exp) != "Esyntax":
+            if w == "every sub-expression":
+                post = [P for P, i, C in _lab_edges(lab)] + [lab.split("(")[0]]
+                post = [OPCLASS.get(x, x) for x in post if x in _POSTFIXY or x in ("new", "new()")]
+                w2 = "every sub-expression, tree contains " + (post[0] if post else "?")
+            else:
+                w2 = w
+            return "paren|rejected|%s" % w2, ("redundant parentheses around %s make the engine reject the program (SyntaxError), "
+                                              "e.g. `%s`" % (w2, eg))
+        cul = _culprit(lab)
+        if cul:
+            return "paren|%s|%s" % (cul[0], k), "redundant parentheses change the outcome: %s: %s" % (cul[1], k)
+        return "paren|%s|%s|%s" % (w, _lab_classes(lab), k), (
+            "redundant parentheses around %s in nesting %s (e.g. `%s`): %s" % (w, _lab_classes(lab), eg, k))
     if name.startswith("c13_layout"):
         k = mismatch_kind(exp, obs)
         return "layout|%s|%s|%s" % (p.get("t"), p.get("ctx"), k), (
@@ -848,7 +969,7 @@ def signature(sp, cid, payload, exp, obs):
     if name.startswith("c13_lit"):
         k = mismatch_kind(exp, obs)
         form = p.get("form", "?")
-        return "literal|%s|%s" % (form, k), "literal form %s (e.g. `%s`): %s" % (form, cid.replace("\n", "\\n")[:40], k)
+        return "literal|%s|%s" % (form, k), "literal form %s (e.g. `%s`): %s" % (form, eg, k)
     if name.startswith("c13_reject"):
         if tail(obs).startswith("R"):
             k = "accepted and run to completion"
@@ -857,5 +978,12 @@ def signature(sp, cid, payload, exp, obs):
         else:
             k = mismatch_kind(exp, obs)
         mut = p.get("mut", "?")
-        return "reject|%s|%s" % (mut, k), "%s: %s instead of SyntaxError" % (mut, k)
+        if " replaced by " in mut:
+            ctx = mut.split(" replaced by ")[0]
+            if ctx.startswith("target of"):
+                ctx = "assignment target"
+            elif ctx.startswith("operand of"):
+                ctx = " ".join(ctx.split(" ")[:3]) + " ++/--"
+            mut = "%s replaced by %s" % (ctx, _repl_class(mut))
+        return "reject|%s|%s" % (mut, k), "%s (e.g. `%s`): %s instead of SyntaxError" % (mut, eg, k)
     return "other|" + name, name
